@@ -1,17 +1,24 @@
 #!/bin/sh
 # usage: tools/seedtest.sh <seeded-dir-name> <check ids...>
-# applies /verif/seeded/<name>/patch.diff to /repo, runs the checks, reverts.
+# Runs the named checks against a scratch worktree of /repo with
+# seeded/<name>/patch.diff applied, using a private copy of the Lean project
+# (so neither /repo, nor the shared Gen files, nor evidence/ are touched).
+# Equivalent to: git -C /repo apply <patch>; ./check ...; git -C /repo checkout -- .
 name=$1; shift
+R=/tmp/seedrun-$$
+mkdir -p $R
 cd /verif || exit 2
-git -C /repo diff --quiet || { echo "/repo not clean"; exit 2; }
-git -C /repo apply /verif/seeded/$name/patch.diff || { echo "patch does not apply"; exit 2; }
-mkdir -p .cache/seedlogs
+git -C /repo worktree add -q --detach $R/repo HEAD || exit 2
+git -C $R/repo apply /verif/seeded/$name/patch.diff || { echo "$name: patch does not apply to HEAD"; git -C /repo worktree remove --force $R/repo; rm -rf $R; exit 2; }
+cp -a /verif/lean $R/lean
+rm -f $R/lean/.build.lock
+mkdir -p .cache/seedlogs $R/evidence
 for id in "$@"; do
   s=$(date +%s)
-  VERIF_SEED=${VERIF_SEED:-1} ./check $id > .cache/seedlogs/$name-$id.log 2>&1
+  LBZ_REPO=$R/repo LBZ_LEAN=$R/lean LBZ_EVIDENCE_DIR=$R/evidence VERIF_SEED=${VERIF_SEED:-1} ./check $id > .cache/seedlogs/$name-$id.log 2>&1
   rc=$?
   echo "$name $id rc=$rc $(( $(date +%s) - s ))s :: $(grep -m1 '^VIOLATION' .cache/seedlogs/$name-$id.log | cut -c1-160)"
 done
-git -C /repo checkout -- .
-# regenerate Gen from the clean tree
-python3 tools/extract.py > /dev/null
+git -C /repo worktree remove --force $R/repo
+git -C /repo worktree prune
+rm -rf $R
